@@ -6,6 +6,8 @@ import (
 	"path/filepath"
 	"strings"
 	"syscall"
+
+	"golang.org/x/sys/unix"
 )
 
 // Mount calls mount syscall
@@ -28,6 +30,14 @@ func (m *Mount) Mount() error {
 		flag := m.Flags | syscall.MS_REMOUNT | uintptr(s.Flags&mask)
 		if err := syscall.Mount("", m.Target, m.FsType, flag, m.Data); err != nil {
 			return fmt.Errorf("remount: %w", err)
+		}
+		// a recursive bind brings the mounts nested in the source along, the remount reaches the top one only:
+		// make the whole subtree read-only (kernels without mount_setattr keep the former behaviour)
+		if m.Flags&syscall.MS_REC != 0 {
+			attr := unix.MountAttr{Attr_set: unix.MOUNT_ATTR_RDONLY}
+			if err := unix.MountSetattr(unix.AT_FDCWD, m.Target, unix.AT_RECURSIVE, &attr); err != nil && err != unix.ENOSYS {
+				return fmt.Errorf("remount: recursive read-only: %w", err)
+			}
 		}
 	}
 	return nil
